@@ -24,7 +24,7 @@ import (
 // VerifC08_Progress: the progress lemma, for namespaced and cluster-scoped
 // parents.
 func VerifC08_Progress() {
-	o := verifRollOpts{progress: true, status: map[string]interface{}{}}
+	o := verifRollOpts{progress: true, twoVersions: true, status: map[string]interface{}{}}
 	verifRollTierOpts(&o)
 	s := verifRollBuild(o)
 
